@@ -423,8 +423,10 @@ def run_case(case, res, log=None):
                     model.blobs[b.h] = b
                     if not b.sd:
                         cs.bm.completed_blob_hashes.add(b.h)
-            reported = loop.run(cs.dsm.get_space_used_mb(cached=False))
-            if (reported['content_storage'] + reported['private_storage'], reported['network_storage']) != \
+            # asked from the storage, not through the manager: the manager caches the figure and the harness must not
+            # refresh that cache behind the back of the code under test
+            rep = loop.run(cs.st.get_stored_blob_disk_usage())
+            if (mb(rep['content_storage']) + mb(rep['private_storage']), mb(rep['network_storage'])) != \
                     (model.used_content(), model.used_network()):
                 # an observation, not a verdict: what the passes then do with the figure is what is judged
                 res.tally('interpretation_only:get_space_used_mb_differs_from_what_is_on_disk')
